@@ -484,7 +484,11 @@ func HarnessC03_urls() {
 	if hasRW {
 		p.srcRewriter = urlRewriter(nondetRewriter("p.rewrite"))
 	}
-	pos := nondetIntRange("pos", 0, len(urlPositions)-1)
+	hiPos := len(urlPositions) - 1
+	if verifParam("onlyPos") == 1 {
+		hiPos = 0
+	}
+	pos := nondetIntRange("pos", 0, hiPos)
 	el, key := urlPositions[pos][0], urlPositions[pos][1]
 	verifNoteInt("pos", pos)
 	allowGlobally(p, key, "other")
